@@ -14,7 +14,7 @@ func exploreAll(t *testing.T, bound int, gran Granularity, mk func() (bodies []f
 		var bodies []func()
 		bodies, obs = mk()
 		return Run(Options{Prefix: prefix, Expect: expect, Gran: gran, StartPoint: gran == GranSync}, bodies...)
-	}, func(prefix []int, ex *Exec) bool {
+	}, func(prefix []int, ex *Exec, shared bool) bool {
 		if ex.Diverged != "" {
 			t.Fatalf("diverged: %s", ex.Diverged)
 		}
